@@ -34,8 +34,14 @@ func blockStringValue(rawValue string) string {
 
 	if commonIndent > 0 {
 		for i, line := range lines {
-			if i > 0 && len(line) >= commonIndent {
+			if i == 0 {
+				continue
+			}
+			if len(line) >= commonIndent {
 				lines[i] = line[commonIndent:]
+			} else {
+				// a line shorter than the common indentation consists of white space only
+				lines[i] = ""
 			}
 		}
 	}
